@@ -1,5 +1,5 @@
 import DaeVerif.C03.RunProofs
-import DaeVerif.C03.Layout
+import DaeVerif.C03.LayoutProofs
 /-!
 # C03 — property theorems, part 2: whole runs, the WAN-ingress marking, timeouts, record layout
 
@@ -182,5 +182,103 @@ theorem wan_originated_udp_replies_pass (k : Key) (h4 : k.l4 = IPPROTO_UDP) (hsl
     obtain ⟨hs1, hs2⟩ := wanOriginated_step e.rt (e.pre w) e.hook e.skb e.l2 k h4 hsl hl0 hn1
     obtain ⟨iha, ihn⟩ := ih (e.apply w).1 (fun e' he' => henv e' (List.mem_cons_of_mem _ he')) hs1 hlrest
     exact ⟨⟨hs2, iha⟩, ihn⟩
+
+/-! ## Frames the hooks do not route -/
+
+/-- **Fragments, non-TCP/UDP protocols, ICMPv6 and unparsable frames are never routed**: when the
+parser does not deliver a TCP/UDP packet, both capturing hooks leave the world untouched and either
+pass the frame unmodified (positive parser codes: non-initial or first fragment, unsupported
+protocol, ICMPv6, unknown ethertype) or drop it (malformed or truncated headers). -/
+theorem unparsed_frames_not_routed (rt : RouteIn → Int) (w : World) (s : Skb) (l2 : Bool)
+    (h : ∀ p, parsePacket s.raw l2 ≠ .pkt p) :
+    (lanIngress rt w s l2 = (w, outOk s s.mark) ∨ lanIngress rt w s l2 = (w, outShot s)) ∧
+    (wanEgress rt w s l2 = (w, outOk s s.mark) ∨ wanEgress rt w s l2 = (w, outShot s)) := by
+  unfold lanIngress wanEgress
+  cases hp : parsePacket s.raw l2 with
+  | shot => exact ⟨Or.inr rfl, by split <;> simp⟩
+  | pass => exact ⟨Or.inl rfl, by split <;> simp⟩
+  | pkt p => exact absurd hp (h p)
+
+/-- a non-initial IPv4 fragment is passed, not routed (L3 link type; the L2 case differs only by the
+14-byte offset) -/
+theorem ipv4_noninitial_fragment_passes (rt : RouteIn → Int) (w : World) (s : Skb)
+    (hlin : s.raw.lin ≤ s.raw.bytes.length) (hproto : s.raw.proto = ETH_P_IP) (hlen : 20 ≤ s.raw.bytes.length)
+    (hihl : 5 ≤ rd s.raw.bytes 0 % 16) (hfrag : be16 s.raw.bytes 6 % 8192 ≠ 0)
+    (hnot6 : rd s.raw.bytes 9 ≠ IPPROTO_ICMPV6) :
+    lanIngress rt w s false = (w, outOk s s.mark) := by
+  unfold lanIngress parsePacket
+  rw [parseTransport_eq_slow _ _ hlin]
+  unfold parseSlow
+  simp only [Bool.false_eq_true, if_false, hproto, if_true]
+  unfold slowV4
+  rw [loadBytes_of_le _ 0 20 (by omega)]
+  have h5 : ¬ (rd (slice s.raw.bytes 0 20) 0 % 16 < 5) := by
+    rw [rd_slice _ _ _ _ (by omega)]; simpa using hihl
+  have hf : (be16 (slice s.raw.bytes 0 20) 6 % 8192 != 0) = true := by
+    rw [be16_slice _ _ _ _ (by omega)]; simpa using hfrag
+  simp only [h5, if_false, hf, if_true, pkOf]
+  have h9 : ¬ (rd (slice s.raw.bytes 0 20) 9 = IPPROTO_ICMPV6) := by
+    rw [rd_slice _ _ _ _ (by omega)]; simpa using hnot6
+  simp [h9, PARSE_FRAGMENT]
+
+/-! ## Idle timeouts (monotone clock) -/
+
+/-- **Documented idle timeouts.**  With a monotone 64-bit clock, an entry is past its timeout exactly
+when more than 120 s (10 s for a TCP entry that saw FIN/RST) passed since `last_seen_ns`; and a
+packet leaves `last_seen_ns` at most one second behind the clock — so a flow whose packets are never
+more than 119 s (9 s when closing) apart stays tracked, and one idle for more than 120 s (10 s) is
+forgotten. -/
+theorem idle_timeouts (cs : ConnState) (now : Nat) (h : cs.lastSeen ≤ now) (hn : now < 2 ^ 64) :
+    tcpExpired cs now = decide (now - cs.lastSeen > (if cs.state = 1 then 10000000000 else 120000000000)) ∧
+    udpExpired cs now = decide (now - cs.lastSeen > 120000000000) ∧
+    (refresh cs now).lastSeen ≤ now ∧ now - (refresh cs now).lastSeen ≤ 1000000000 := by
+  have hs := sub64_of_le now cs.lastSeen h hn
+  refine ⟨?_, ?_, ?_, ?_⟩
+  · unfold tcpExpired; rw [hs]; rfl
+  · unfold udpExpired; rw [hs]; rfl
+  · unfold refresh; rw [hs]; split <;> simp [h]
+  · unfold refresh; rw [hs]
+    split
+    · simp
+    · rename_i hh
+      simp only [UPDATE_INTERVAL] at hh
+      simp only; omega
+
+/-! ## The record the control plane reads: byte layout -/
+
+/-- **`struct conn_state` ↔ `bpfConnState`.**  Reading the 56-byte image the kernel program stores
+at the Go struct's field offsets yields exactly the fields that were stored (for in-range values:
+`u32` mark/pid, `u8` outbound/must/dscp/has_routing, 6-byte MAC, 16-byte name). -/
+theorem conn_state_layout (c : ConnState)
+    (h : c.mark < 2 ^ 32 ∧ c.pid < 2 ^ 32 ∧ c.outbound < 256 ∧ c.must < 256 ∧ c.dscp < 256 ∧ c.hasRouting < 256 ∧
+      c.mac.length = 6 ∧ c.pname.length = 16) :
+    (encConn c).length = 56 ∧
+    goDecConn (encConn c) = ⟨c.hasRouting, ⟨c.mark, c.must, c.mac, c.outbound, c.pname, c.pid, c.dscp⟩⟩ := by
+  obtain ⟨h1, h2, h3, h4, h5, h6, h7, h8⟩ := h
+  refine ⟨encConn_length c, ?_⟩
+  unfold goDecConn
+  rw [conn_hasRouting, conn_mark, conn_must, conn_mac, conn_outbound, conn_pname, conn_pid, conn_dscp,
+    leVal_le4 _ h1, leVal_le4 _ h2, fit_of_length 6 _ h7, fit_of_length 16 _ h8,
+    Nat.mod_eq_of_lt h3, Nat.mod_eq_of_lt h4, Nat.mod_eq_of_lt h5, Nat.mod_eq_of_lt h6]
+
+/-- **`struct routing_handoff_entry` ↔ `bpfRoutingHandoffEntry`.** -/
+theorem handoff_layout (x : Handoff)
+    (h : x.lastSeen < 2 ^ 64 ∧ x.result.mark < 2 ^ 32 ∧ x.result.pid < 2 ^ 32 ∧ x.result.outbound < 256 ∧
+      x.result.must < 256 ∧ x.result.dscp < 256 ∧ x.result.mac.length = 6 ∧ x.result.pname.length = 16) :
+    (encHandoff x).length = 48 ∧ goDecHandoff (encHandoff x) = x := by
+  obtain ⟨h0, h1, h2, h3, h4, h5, h7, h8⟩ := h
+  refine ⟨encHandoff_length x, ?_⟩
+  unfold goDecHandoff goDecResult
+  simp only [Nat.reduceAdd]
+  rw [ho_lastSeen, ho_mark, ho_must, ho_mac, ho_outbound, ho_pname, ho_pid, ho_dscp,
+    leVal_le8 _ h0, leVal_le4 _ h1, leVal_le4 _ h2, fit_of_length 6 _ h7, fit_of_length 16 _ h8,
+    Nat.mod_eq_of_lt h3, Nat.mod_eq_of_lt h4, Nat.mod_eq_of_lt h5]
+
+/-- **Lookup key.**  The key `bpfTuplesKeyFromAddrPorts` builds for (src, dst, l4proto) is byte for
+byte the `struct tuples_key` the kernel program stored the entry under (40 bytes: addresses in
+network order, ports in network order, protocol, three zero bytes). -/
+theorem lookup_key_layout (k : Key) :
+    goKey k.sip k.sport k.dip k.dport k.l4 = encKey k ∧ (encKey k).length = 40 :=
+  ⟨rfl, encKey_length k⟩
 
 end DaeVerif.C03.Props
